@@ -39,6 +39,17 @@ def scenarios(quick: bool) -> list[tuple[dict, int]]:
             "dev": alld + ("call", "foreign"),
         }
         sc.append((p, 1 if quick else 2))
+    # two callers sending the SAME frame (a poller re-sending its stored command; two entities asking the same thing): a late or
+    # duplicate echo/reply of the first is, byte for byte, an echo/reply of the second - in every state, incl. as it is dequeued
+    for to in (0.5001, 20.0):
+        for same in (None, 0):
+            for start in ("t0", "q"):
+                p = {
+                    "qos_mode": False,
+                    "callers": [caller("rq30c9_01", timeout=to), caller("rq30c9_01", same_as=same, timeout=20.0, start=start)],
+                    "dev": ENV + ("call",),
+                }
+                sc.append((p, 2 if quick else 3))
     if not quick:
         for to in (0.5001, 1.5001, 20.0):
             p = {"qos_mode": False, "callers": [caller("rq30c9_01", timeout=to)], "dev": alld}
